@@ -29,6 +29,9 @@ pub struct Conc {
     syms: HashMap<String, String>, // 32-hex -> symbol
     nver: usize,
     logpos: usize,
+    /// the parent the first accepted version was stored under (any parent is accepted while the
+    /// chain is empty): where a replica that has nothing starts walking
+    first_parent: Option<Uuid>,
     pub stats: HashMap<String, u64>,
 }
 
@@ -46,8 +49,15 @@ fn payload(d: &str) -> Vec<u8> {
 }
 
 impl Conc {
-    pub fn new(n: usize) -> Conc {
-        let store = new_store(n);
+    pub fn new(n: usize, cleanup: bool) -> Conc {
+        // (one more client than the case uses: the fresh replica of the final walk)
+        let store = new_store(n + 1);
+        if cleanup {
+            // objects are created "400 days ago"; AGE moves the store's clock towards now, so a case
+            // has both versions older and younger than the retention age
+            let now = std::time::SystemTime::now().duration_since(std::time::UNIX_EPOCH).unwrap().as_secs();
+            store.lock().unwrap().clock = now - 400 * 86400;
+        }
         let mut servers = Vec::new();
         taskchampion::server::verif::set_rand(Some(255));
         for i in 0..n {
@@ -61,7 +71,7 @@ impl Conc {
             }
         }
         let logpos = store.lock().unwrap().log.len();
-        let mut c = Conc { store, servers, futs: Vec::new(), syms: HashMap::new(), nver: 0, logpos, stats: HashMap::new() };
+        let mut c = Conc { store, servers, futs: Vec::new(), syms: HashMap::new(), nver: 0, logpos, first_parent: None, stats: HashMap::new() };
         for _ in 0..n {
             c.futs.push(None);
         }
@@ -128,6 +138,17 @@ impl Conc {
             st.log[self.logpos..].to_vec()
         };
         self.logpos += lines.len();
+        for l in &lines {
+            // "cN cas latest none => <id> -> true": the first version; its object is v-<parent>-<id>
+            let t: Vec<&str> = l.split(' ').collect();
+            if t.len() == 8 && t[1] == "cas" && t[3] == "none" && t[7] == "true" && self.first_parent.is_none() {
+                let st = self.store.lock().unwrap();
+                let suffix = format!("-{}", t[5]);
+                if let Some(name) = st.objects.keys().find(|k| k.starts_with("v-") && k.ends_with(&suffix)) {
+                    self.first_parent = Uuid::parse_str(&name[2..34]).ok();
+                }
+            }
+        }
         lines.iter().map(|l| self.symbolize(l)).collect()
     }
 
@@ -269,7 +290,45 @@ impl Conc {
                 objs.sort();
                 out.push(format!("latest {}", l));
                 out.push(format!("objects {}", objs.join(" ")));
-                (format!("END :: latest {} :: objects {}", l, objs.join(" ")), "ok".into())
+                // a fresh replica: newest snapshot (or nil), then the children one after the other
+                let n = self.servers.len();
+                let walk = {
+                    let mut fresh = block_on(VerifCloud::new(self.store.clone(), n, b"conc secret".to_vec())).expect("fresh client");
+                    let mut at = match block_on(fresh.get_snapshot()) {
+                        Ok(Some((v, _))) => v,
+                        Ok(None) => self.first_parent.unwrap_or(Uuid::nil()),
+                        Err(e) => return (format!("END :: latest {} :: objects {} :: walk error-{}", l, objs.join(" "), e.to_string().replace(' ', "_")), "ok".into()),
+                    };
+                    let start = self.sym(at);
+                    let mut steps = 0;
+                    let mut err = None;
+                    loop {
+                        match block_on(fresh.get_child_version(at)) {
+                            Ok(GetVersionResult::Version { version_id, .. }) => {
+                                at = version_id;
+                                steps += 1;
+                                if steps > 10000 {
+                                    err = Some("loop".to_string());
+                                    break;
+                                }
+                            }
+                            Ok(GetVersionResult::NoSuchVersion) => break,
+                            Err(e) => {
+                                err = Some(e.to_string().replace(' ', "_"));
+                                break;
+                            }
+                        }
+                    }
+                    let end = self.sym(at);
+                    // the walk's requests are not part of the trace
+                    self.logpos = self.store.lock().unwrap().log.len();
+                    match err {
+                        Some(e) => format!("error-{}", e),
+                        None if end == l || (l == "none" && end == "nil") => format!("reaches-latest from={} steps={}", start, steps),
+                        None => format!("stops-at-{} from={} steps={} latest={}", end, start, steps, l),
+                    }
+                };
+                (format!("END :: latest {} :: objects {} :: walk {}", l, objs.join(" "), walk), "ok".into())
             }
             _ => (line.to_string(), "bad-op".into()),
         }
